@@ -1,9 +1,157 @@
 import ScryerModel.Proofs.Graph
-/-! # C24 — Cyclic terms are processed correctly and always terminate -/
+/-!
+# C24 — Cyclic terms are processed correctly and always terminate
+
+Terms are finite term GRAPHS (`Model/Graph.lean`: array of variable / constant / compound nodes,
+arbitrary sharing and back edges); the infinite-tree reading of a node is the family of its
+unfoldings `unfold g k i` to every finite depth `k`. All theorems hold for every graph of any size
+and any cycle structure.
+
+* termination: every algorithm is structurally recursive on explicit fuel; the theorems
+  `C24_*_terminates` show that the fuel the entry points start with is never exhausted
+  (`size + 1` for the node walks, `size² + 1` for the pair walks), i.e. the visited-set /
+  tabu-list mechanism bounds the walk;
+* `acyclic_term/1` ⇔ the unfolding is a finite tree ⇔ no cycle is reachable;
+* `==` (and `compare/3` answering `=`) ⇔ the two nodes have the same unfolding at every depth;
+  any `<`/`>` answer of `compare/3` comes with a depth at which the unfoldings differ;
+* `term_variables/2` = exactly the reachable variable nodes, each once; `ground/1` ⇔ none;
+* `copy_term/2`: the copy denotes the same tree up to an injective renaming of the variables to
+  NEW nodes, and the source graph is untouched;
+* the model is pure, so "`acyclic_term/1` leaves every term unchanged" holds trivially in the model;
+  for the implementation (pointer reversal, mark bits) it is tied by the run only
+  (the unfolding probes before/after), see notes/design/C24.md.
+
+Not proved (tied by the correspondence run only): that the unifier computed by `unify` makes the two
+nodes equal and is most general; the order `compare/3` induces on non-equal rational trees.
+-/
 namespace Scryer.Graph
 
-/-- A term that is finite at depth `k` is finite at every larger depth. -/
+/-! ## acyclic_term/1 -/
+
+/-- `acyclic_term/1` succeeds exactly when the term is a finite tree (its unfolding is complete at
+some depth). -/
+theorem C24_acyclic_iff_finite (g : Graph) (r : Nat) :
+    acyclic g r = true ↔ ∃ k, fin g k r = true :=
+  acyclic_iff_finite g r
+
+/-- `acyclic_term/1` succeeds exactly when no cycle is reachable from the root. In particular the
+walk terminates with the right answer on every graph: its fuel `size + 1` is never the reason for
+a `false`. -/
+theorem C24_acyclic_iff_no_reachable_cycle (g : Graph) (r : Nat) :
+    acyclic g r = true ↔ ¬ ∃ x, Reach g r x ∧ ReachP g x x :=
+  acyclic_iff_noCycle g r
+
+/-- a finite term stays finite at larger depths (the depth-`k` unfolding has stabilised). -/
 theorem C24_fin_mono (g : Graph) {k k' : Nat} (hk : k ≤ k') {i : Nat} (h : fin g k i = true) :
     fin g k' i = true := fin_mono g hk h
+
+/-! ## ==/2 and compare/3 -/
+
+/-- the pair walk never runs out of fuel: at most `size²` pairs of compound nodes enter the tabu
+list (termination of `==`/`compare/3` on every graph). -/
+theorem C24_compare_terminates (g : Graph) (a b : Nat) : cmp g a b ≠ .fuel :=
+  cmp_ne_fuel g a b
+
+/-- `a == b` exactly when the two nodes denote the same (possibly infinite) tree: equal unfoldings
+at every depth. Variables are equal only to themselves. -/
+theorem C24_eq_iff_same_unfoldings (g : Graph) (a b : Nat) :
+    eq g a b = true ↔ ∀ k, unfold g k a = unfold g k b :=
+  eq_iff_sameTree g a b
+
+/-- whenever `compare/3` reports an order (`<`, `>`, or two distinct variables) the trees really
+differ: there is a depth at which the unfoldings are different. -/
+theorem C24_compare_difference_is_real (g : Graph) (a b : Nat)
+    (h : cmp g a b = .lt ∨ cmp g a b = .gt ∨ ∃ x y, cmp g a b = .vars x y) :
+    ∃ k, unfold g k a ≠ unfold g k b := by
+  apply cmpN_diff g (pairFuel g) a b []
+  show IsDiff (cmp g a b)
+  rcases h with h | h | ⟨x, y, h⟩ <;> rw [h] <;> trivial
+
+/-- `==` is an equivalence on nodes (a consequence of the unfolding characterisation). -/
+theorem C24_eq_equivalence (g : Graph) (a b c : Nat) :
+    eq g a a = true ∧ (eq g a b = true → eq g b a = true) ∧
+    (eq g a b = true → eq g b c = true → eq g a c = true) := by
+  refine ⟨(C24_eq_iff_same_unfoldings g a a).mpr (fun _ => rfl), fun h => ?_, fun h1 h2 => ?_⟩
+  · exact (C24_eq_iff_same_unfoldings g b a).mpr
+      (fun k => ((C24_eq_iff_same_unfoldings g a b).mp h k).symm)
+  · exact (C24_eq_iff_same_unfoldings g a c).mpr
+      (fun k => ((C24_eq_iff_same_unfoldings g a b).mp h1 k).trans
+        ((C24_eq_iff_same_unfoldings g b c).mp h2 k))
+
+/-! ## ground/1 and term_variables/2 -/
+
+/-- the node walk with a visited set terminates on every well-formed graph and lists exactly the
+reachable nodes, each once. -/
+theorem C24_walk_terminates_and_is_exact (g : Graph) (hw : WF g) (r : Nat) (hr : r < g.size) :
+    (∃ s, dfs g (g.size + 1) r [] = some s) ∧
+    (reachList g r).Nodup ∧ ∀ x, x ∈ reachList g r ↔ Reach g r x := by
+  obtain ⟨s, h, _⟩ := dfs_top g hw r hr
+  exact ⟨⟨s, h⟩, reachList_spec g hw r hr⟩
+
+/-- `term_variables/2` returns exactly the variable nodes reachable from the root, each once. -/
+theorem C24_term_variables_exact (g : Graph) (hw : WF g) (r : Nat) (hr : r < g.size) :
+    (termVars g r).Nodup ∧ ∀ x, x ∈ termVars g r ↔ (Reach g r x ∧ node g x = .var) :=
+  termVars_spec g hw r hr
+
+/-- `ground/1` succeeds exactly when no variable is reachable. -/
+theorem C24_ground_iff_no_reachable_variable (g : Graph) (hw : WF g) (r : Nat) (hr : r < g.size) :
+    ground g r = true ↔ ∀ x, Reach g r x → node g x ≠ .var :=
+  ground_spec g hw r hr
+
+/-! ## copy_term/2 -/
+
+/-- `copy_term/2`: the nodes of the source are untouched; the copy denotes, at every depth, the
+tree of the source with each variable `x` renamed to `fwd … x`; these are new nodes (index ≥ old
+size: the copy shares no variable with the source) and distinct reachable nodes get distinct
+copies (sharing and cycles are preserved, not merged). -/
+theorem C24_copy_term (g : Graph) (hw : WF g) (r : Nat) (hr : r < g.size) :
+    (∀ i, i < g.size → node (copy g r).1 i = node g i) ∧
+    (∀ k, unfold (copy g r).1 k (copy g r).2 = unfoldR (fwd g.size (reachList g r)) g k r) ∧
+    (∀ x, g.size ≤ fwd g.size (reachList g r) x) ∧
+    (∀ x y, Reach g r x → Reach g r y →
+      fwd g.size (reachList g r) x = fwd g.size (reachList g r) y → x = y) :=
+  copy_spec g hw r hr
+
+/-- renaming by the identity is the plain unfolding (so for a ground term the copy denotes the
+same tree as the source). -/
+theorem C24_unfoldR_id (g : Graph) (k i : Nat) : unfoldR id g k i = unfold g k i :=
+  unfoldR_id g k i
+
+/-! ## unification -/
+
+/-- unification without occurs check terminates on every graph: the tabu list of compound pairs
+bounds the walk, the fuel `size² + 1` is never exhausted. (That the computed bindings are a most
+general unifier is not proved here; it is tied to the implementation by the run.) -/
+theorem C24_unify_terminates (g : Graph) (a b : Nat) : ∀ x, unify g a b = x → x ≠ .fuel :=
+  unify_ne_fuel g a b
+
+/-! ## non-vacuity: the branches are reached -/
+
+/-- `X = f(X, Y)`: node 0 = f(0, 1), node 1 a variable. -/
+def gLoop : Graph := #[.str 2 [0, 1], .var]
+/-- `f(X, a)` twice: a one-node loop and its two-node unrolling. -/
+def gTwin : Graph := #[.str 2 [0, 1], .atom 11, .str 2 [3, 1], .str 2 [2, 1]]
+/-- a finite DAG with sharing: f(g(V), g(V)) with one shared g(V). -/
+def gDag : Graph := #[.str 2 [1, 1], .str 3 [2], .var]
+
+example : WF gLoop := by
+  intro i f as h c hc
+  rcases i with _ | _ | i
+  · simp [node, gLoop] at h
+    obtain ⟨_, rfl⟩ := h
+    simp at hc
+    rcases hc with rfl | rfl <;> simp [gLoop]
+  · simp [node, gLoop] at h
+  · simp [node, gLoop] at h
+example : acyclic gLoop 0 = false := by decide
+example : acyclic gDag 0 = true := by decide
+example : termVars gLoop 0 = [1] := by decide
+example : ground gLoop 0 = false := by decide
+example : eq gTwin 0 2 = true := by decide
+example : eq gTwin 0 1 = false := by decide
+example : cmp gTwin 1 0 = .lt := by decide
+example : (copy gLoop 0).2 = 2 ∧ (copy gLoop 0).1 = #[.str 2 [0, 1], .var, .str 2 [2, 3], .var] := by decide
+example : unify gLoop 0 1 = .ok [(1, 0)] [] := by decide
+example : unify gTwin 0 1 = .fail := by decide
 
 end Scryer.Graph
